@@ -19,12 +19,16 @@ MANIFEST = {
     "text": "One executable Coq function for the whole analysis, composed from the stage models without re-modelling any "
             "stage (Disasm, VM, PassesSlots, PassesPacking, Register, Rules, Unify on C19's union-find, Abi, Layout) plus the "
             "glue the Rust code has between them (ExecutionResult::all_values in the order of the hook verif::order, unique(), "
-            "the polled loops of lift/assign_vars/infer, state -> forest -> abi environment).  Theorems for ALL programs, "
+            "the polled loops of lift / assign_vars / infer / every round of unify / the layout loop as instances of "
+            "PolledLoop.v, state -> forest -> abi environment).  Theorems for ALL programs, "
             "configurations and iteration-order modes: pipeline_layout_sorted, pipeline_storage_free_empty, "
-            "pipeline_literal_key_row.  The real analysis (deterministic identities; iteration orders sorted / "
+            "pipeline_literal_key_row; the watchdog end to end (pipeline_never_stop_interval_irrelevant, pipeline_stop_is_error, "
+            "pipeline_stops_within_bound with B = poll_every + 1) and the two error modes "
+            "(pipeline_strict_success_same_as_permissive, pipeline_permissive_errors_subset).  The real analysis (deterministic identities; iteration orders sorted / "
             "sorted-reversed / seeded shuffle, the same mode on both sides) and the model are run on the same programs and "
-            "the final layouts compared inside Coq; intermediate dumps attribute a disagreement to a stage; the three "
-            "end-to-end properties are also evaluated on the implementation's own layouts.",
+            "the final layouts AND the number of watchdog polls compared inside Coq (the watchdog stopped at every poll index "
+            "of small programs, intervals 1 / 3 / 7 / 100; strict / permissive pairs); intermediate dumps attribute a "
+            "disagreement to a stage; the end-to-end properties are also evaluated on the implementation's own output.",
     "note": "Trusted: Coq kernel + vm_compute; the translator steps of the stage models; harness cmd_pipeline.rs (real entry "
             "points + staged dump + keccak oracle by the sha3 crate); the slot table is the implementation's own export, "
             "cross-checked against an independent keccak; the sort key of the storage / symbolic-memory hooks is the Display "
@@ -35,26 +39,32 @@ MANIFEST = {
                  "correspondence with stage attribution, evaluated inside Coq",
 }
 
-CODES = {1: "different kind of outcome (no dumped stage disagrees)",
+CODES = {1: "different kind of outcome or stage reached (no dumped stage disagrees), or staged run != analyze run",
          2: "the values handed to the type checker differ (VM / all_values / unique)",
          3: "the lifted values differ (nine lifting passes)",
          4: "the number of type variables after assign_vars differs (registration)",
          5: "the inference sets after infer differ (inference rules)",
          6: "all dumped stages agree but the final result differs (unification / abi_type_for / layout)",
-         7: "the staged run of the implementation ends differently from its own analyze run",
+         7: "same outcome but a different number of watchdog polls (a polled loop is modelled wrongly)",
          8: "the keccak oracle misses a byte string the model hashes",
          9: "halting differs (out of fuel on one side only)",
          55: "outside the scope of the sorted hook (equal sort keys in one state): an intermediate order differs, same final result",
          56: "outside the scope of the sorted hook (equal sort keys in one state): the final results differ",
-         58: "watchdog stop later than infer (beyond the model)"}
+         57: "unification needs more rounds than the evaluation fuel of the model (not compared)"}
 
 PROPS = {10: "the layout is not sorted by (slot index, bit offset) [pipeline_layout_sorted]",
          11: "no SLOAD / SSTORE instruction in the stream, yet a non-empty layout [pipeline_storage_free_empty]",
          12: "a literal storage key of a retired state of the model's VM run has no row in the layout "
-             "[pipeline_literal_key_row]"}
+             "[pipeline_literal_key_row]",
+         13: "the watchdog had turned to stop (more polls made than the stop index) yet the analysis did not end with the "
+             "StoppedByWatchdog error [pipeline_stop_is_error]",
+         14: "more than poll_every + 1 polls were made after the watchdog had turned to stop [pipeline_stops_within_bound]",
+         15: "strict mode returned a layout, permissive mode did not return the same layout "
+             "[pipeline_strict_success_same_as_permissive]",
+         16: "an error reported in permissive mode is not among those of strict mode [pipeline_permissive_errors_subset]"}
 
 CLASSES = {0: "layout", 1: "structured error", 2: "panic", 3: "unification does not halt (K2), both sides",
-           4: "model out of fuel", 5: "beyond the model (late watchdog stop)"}
+           4: "model out of fuel"}
 
 DEFAULT = (30000000, 10, 50, 250, 394)
 
@@ -128,6 +138,56 @@ def programs(ctx):
     return out
 
 
+STOPK_INTERVALS = [1, 3, 7, 100]
+
+
+def stopk_programs(ctx):
+    """small programs that spend time in every polled loop (VM main loop, a bulk copy, lift, assign_vars, infer, several
+    rounds of unify, the layout loop with several constant slots)"""
+    rng = ctx.rng
+    out = []
+    a = gen.Asm()       # two slots, an address mask, a mapping access, a code copy
+    a.op("CALLER").push(0).op("SSTORE").push(0).op("SLOAD").push(2 ** 160 - 1).op("AND").push(1).op("SSTORE")
+    a.push(0x20).push(0).push(0).op("CODECOPY")
+    a.push(2).push(0x20).op("MSTORE").push(4).op("CALLDATALOAD").push(0).op("MSTORE").push(0x40).push(0).op("SHA3").op("SLOAD").op("POP").op("STOP")
+    out.append(a.assemble())
+    out.append(bytes.fromhex("335f5573ffffffffffffffffffffffffffffffffffffffff5f541660015500"))
+    out.append(bytes.fromhex("60015460010160015560ff545034610056575f5050600354600455005b60055460065500"[:72]))
+    if not ctx.quick:
+        vs = gen.random_vars(rng, 2)
+        out.append(gen.compile_layout(vs, rng, "selector"))
+        out += gen.evidence_programs(rng, gen.boundary_words(), 12)
+        out += gen.mask_shift_programs(rng, gen.boundary_words(), 8)
+    else:
+        out += [c for c in gen.mask_shift_programs(rng, gen.boundary_words(), 4) if len(c) < 60][:1]
+    return [c for c in out if c and len(c) < 400]
+
+
+def stopk_keys(ctx, hb):
+    """every poll index k (0 .. total + 1) of the small programs, for each interval: {key: class}"""
+    rng = ctx.rng
+    progs = stopk_programs(ctx)
+    base = []
+    for code in progs:
+        for p in STOPK_INTERVALS:
+            order = rng.choice(["sorted", "sortedrev", "seed:%d" % rng.randrange(1, 1000)])
+            base.append((code, DEFAULT + (rng.choice([0, 1]),), p, None, order))
+    ok, outl, diag = vlib.run_harness_sharded(hb, ["pipeline"], [pline(k) for k in base], timeout=600)
+    ctx.oblige("harness:pipeline-unmonitored", "correspondence", ok, diag[-400:])
+    keys = collections.OrderedDict()
+    for k, l in zip(base, outl):
+        m = re.match(r"^\[.*?\] \(XR (\d+) (\[.*?\]) (\[.*?\]) (\d+)\) \(mk_xdump", l)
+        if not m or m.group(1) not in ("0", "1"):
+            continue
+        total = int(m.group(4))
+        keys[k] = "stop-at-k:unmonitored"
+        ks = range(0, total + 2) if total <= (120 if ctx.quick else 1500) else sorted(set(
+            [0, 1, 2, total - 1, total, total + 1] + [rng.randrange(0, total + 1) for _ in range(40 if ctx.quick else 400)]))
+        for stop in ks:
+            keys[(k[0], k[1], k[2], stop, k[4])] = "stop-at-k:interval-%d" % k[2]
+    return keys
+
+
 def pline(k, upto=None):
     code, cfg, poll, stop, order = k
     return gen.vm_line(code, cfg, poll_every=poll, stop_at=stop) + (" " + upto if upto else "") + " " + order
@@ -152,8 +212,10 @@ def check(ctx):
                        checker_cmd="make -f Makefile.coq props/Pipeline.vo PipelineCases.vo (coqc 8.16.1) + coqc Print Assumptions")
 
 
-def suite(ctx, translate=True, codes=None, cov_key=None, only=None, part=None):
-    """everything but the verdict (other checks may call this after translating themselves)"""
+def suite(ctx, translate=True, codes=None, cov_key=None, only=None, part=None, focus=None):
+    """everything but the verdict (other checks may call this after translating themselves).
+    part = (k, n): every n-th program from k;  focus = "watchdog": only the stop-at-k and watchdog programs (C13);
+    focus = "modes": (almost) only the strict/permissive pairs (C17)"""
     import p_passes_slots
     if ctx.replay_in and vlib.stage_replay(ctx) != "pipeline":
         return None
@@ -202,9 +264,24 @@ def suite(ctx, translate=True, codes=None, cov_key=None, only=None, part=None):
         keys = [(bytes.fromhex(f[0]), tuple(int(x) for x in f[1:7]), int(f[7]), None if int(f[8]) < 0 else int(f[8]),
                  f[9] if len(f) > 9 else "sorted")]
         progs = {keys[0]: "replay"}
-    ctx.rng.shuffle(keys)          # the slow classes spread over the shards
-    if part and not ctx.replay_in:  # a property check runs its share of the programs: part = (k, n) -> every n-th from k
-        keys = keys[part[0]::part[1]]
+    if not ctx.replay_in:
+        mode_pool = [k for k in keys if k[3] is None and k[2] == 100 and progs[k].split(":")[0] in
+                     ("error-mix", "random-program", "loops", "c07-fragment", "literal-keys")]
+        if focus == "watchdog":
+            keys = [k for k in keys if progs[k].startswith("watchdog") or progs[k] == "poll-interval-zero"]
+        if focus == "modes":
+            keys = keys[:16]
+        ctx.rng.shuffle(keys)          # the slow classes spread over the shards
+        if part:  # a property check runs its share of the programs: part = (k, n) -> every n-th from k
+            keys = keys[part[0]::part[1]]
+        # the watchdog stopped at EVERY poll index of small programs (the whole suite, or C13's share of it)
+        if focus == "watchdog" or (focus is None and part is None):
+            sk = stopk_keys(ctx, hb)
+            for k, cls in sk.items():
+                if k not in progs:
+                    progs[k] = cls
+                    keys.append(k)
+            ctx.rng.shuffle(keys)
     lines = [pline(k) for k in keys]
     ok, outl, diag = vlib.run_harness_sharded(hb, ["pipeline"], lines, timeout=1500)
     bad_lines = [l[:200] for l in outl if not l.startswith("[")]
@@ -212,15 +289,20 @@ def suite(ctx, translate=True, codes=None, cov_key=None, only=None, part=None):
     # quick tier: every program is compared on its final result; the stage dumps (bulky terms: parsing them costs more
     # than running the model) are compared on a sample, and on every program whose final result differs
     cases, lite, kept = [], [], []
+    skipped_large = 0
     for k, l in zip(keys, outl):
         if not l.startswith("["):
+            continue
+        mv = re.search(r"\]\) \(Some (\d+)\) ", l)      # type variables after assign_vars
+        if ctx.quick and mv and int(mv.group(1)) > 1200:      # the list-based model is quadratic in them: thorough tier only
+            skipped_large += 1
             continue
         code, cfg, poll, stop, order = k
         pre = "(PC %s %s (%s) " % (mode_term(order), vlib.coq_bytes(code), gen.coq_config(cfg, poll_every=poll, stop_at=stop))
         h = hexify(l)
         cases.append(pre + h + ")")
         i, j = h.index("(mk_xdump "), h.rindex("(XR ")
-        lite.append(pre + h[:i] + "(mk_xdump None None None None " + h[j:] + ")")
+        lite.append(pre + h[:i] + "(mk_xdump false None None None None " + h[j:] + ")")
         kept.append((k, l))
     n_full = len(cases) if not ctx.quick else min(len(cases), 700)
     full_ix = set(ctx.rng.sample(range(len(cases)), n_full))
@@ -232,11 +314,12 @@ def suite(ctx, translate=True, codes=None, cov_key=None, only=None, part=None):
     ctx.oblige("harness:analyze", "correspondence", ok, diag[-400:])
     differ = []
     for (k, l), a in zip(fin, aout):
-        m = re.match(r"^\[.*?\] \(XR (\d+) (\[.*?\]) (\[.*?\])\) \(mk_xdump", l)
-        ma = re.match(r"^XA (\d+) (\[.*?\]) (\[.*?\]) \d+ ", a)
+        m = re.match(r"^\[.*?\] \(XR (\d+) (\[.*?\]) (\[.*?\]) (\d+)\) \(mk_xdump", l)
+        ma = re.match(r"^XA (\d+) (\[.*?\]) (\[.*?\]) (\d+) ", a)
         if not m or not ma:
             differ.append(pline(k)[:200] + " unparsable")
-        elif m.group(1) != ma.group(1) or (m.group(1) == "0" and m.group(2) != ma.group(2)):
+        elif m.group(1) != ma.group(1) or (m.group(1) == "0" and m.group(2) != ma.group(2)) or \
+                (m.group(1) in "01" and m.group(4) != ma.group(4)):
             differ.append("%s: pipeline %s vs analyze %s" % (pline(k)[:300], m.group(0)[-200:], a[:200]))
     ctx.coverage["analyze_command_cross_checked"] = len(fin)
     ctx.coverage["analyze_command_differs"] = len(differ)
@@ -249,7 +332,7 @@ def suite(ctx, translate=True, codes=None, cov_key=None, only=None, part=None):
     per = max(8, (len(cases) + 31) // 32)
     res = vlib.run_cases(ctx, "pipeline", header, [cases[i] if i in full_ix else lite[i] for i in range(len(cases))],
                          per_shard=per, fn="check_case_cov slot_index", timeout=1700)
-    redo = [i for i, v in res if v < 1000 and v not in (58, 10, 11, 12) and i not in full_ix]
+    redo = [i for i, v in res if v < 1000 and v not in PROPS and i not in full_ix]
     if redo:
         res2 = dict(vlib.run_cases(ctx, "pipeline-stages", header, [cases[i] for i in redo], per_shard=max(4, (len(redo) + 15) // 16),
                                    fn="check_case_cov slot_index", timeout=1700))
@@ -278,7 +361,7 @@ def suite(ctx, translate=True, codes=None, cov_key=None, only=None, part=None):
         else:
             hist[CODES.get(v, PROPS.get(v, str(v)))] += 1
             per_gen[cls.split(":")[0]]["code %d" % v] += 1
-            if v in (55, 56, 58):
+            if v in (55, 56, 57):
                 continue
             if v in PROPS:
                 if codes is not None and v not in codes:
@@ -309,8 +392,54 @@ def suite(ctx, translate=True, codes=None, cov_key=None, only=None, part=None):
                   open(os.path.join(vlib.REPLAY, "PIPELINE_%s_disagreement.json" % ctx.tier), "w"), indent=1)
         ctx.log("first disagreeing program: " + detail[0])
 
+    # ---- C17: the same program in strict and in permissive mode (both through the real analysis and the model)
+    mode_stats = {}
+    if not ctx.replay_in and (focus == "modes" or (focus is None and part is None)):
+        nm = (160 if focus == "modes" else 100) if ctx.quick else 4000
+        pool = ctx.rng.sample(mode_pool, min(len(mode_pool), nm))
+        lines = []
+        for k in pool:
+            for perm in (0, 1):
+                lines.append(pline((k[0], k[1][:5] + (perm,), k[2], k[3], k[4])))
+        ok, mout, diag = vlib.run_harness_sharded(hb, ["pipeline"], lines, timeout=1500)
+        ctx.oblige("harness:pipeline-modes", "correspondence", ok, diag[-400:])
+        mterms, mkept = [], []
+        for n_, k in enumerate(pool):
+            ls, lp = mout[2 * n_], mout[2 * n_ + 1]
+            ms = re.match(r"^(\[.*?\]) (\(XR \d+ \[.*?\] \[.*?\] \d+\)) \(mk_xdump", ls)
+            mp = re.match(r"^(\[.*?\]) (\(XR \d+ \[.*?\] \[.*?\] \d+\)) \(mk_xdump", lp)
+            if not ms or not mp:
+                continue
+            gas, it, fk, sz, mem = k[1][:5]
+            mterms.append(hexify("(MC %s %s (mk_limits %d %d %d %d %d %d None) (%s ++ %s) %s %s)" % (
+                mode_term(k[4]), vlib.coq_bytes(k[0]), gas, it, fk, sz, mem, k[2], ms.group(1), mp.group(1), ms.group(2), mp.group(2))))
+            mkept.append((k, ms.group(2), mp.group(2)))
+        mres = dict(vlib.run_cases(ctx, "pipeline-modes", header, mterms, per_shard=max(4, (len(mterms) + 15) // 16),
+                                   fn="check_modes slot_index", timeout=1700))
+        mdis = []
+        mhist = collections.Counter()
+        for i, (k, xs, xp) in enumerate(mkept):
+            v = mres.get(i, 0)
+            cs, cp = xs.split(" ")[1], xp.split(" ")[1]
+            mhist["strict %s / permissive %s" % (cs, cp)] += 1
+            if v == 0 or v in (55, 56, 57):
+                continue
+            if v in PROPS:
+                if codes is None or v in codes:
+                    ctx.violate("PIPELINE:%d:%s" % (v, k[0].hex()[:48]),
+                                "%s: program %s (%s); strict %s, permissive %s" % (PROPS[v], k[0].hex()[:200], progs[k], xs[:300], xp[:300]),
+                                {"suite": "pipeline", "line": pline(k), "code": v, "meaning": PROPS[v],
+                                 "how": "echo '<line>' | build/harness-target/debug/slxh pipeline   with the permissive field 0 and 1"})
+                continue
+            mdis.append("code %d (%s) [%s]: %s -- strict %s, permissive %s" % (v, CODES.get(v, "?"), progs[k], pline(k), xs[:200], xp[:200]))
+        ctx.oblige("correspondence:pipeline-modes", "correspondence", not mdis, "%d pairs disagree; " % len(mdis) + "\n".join(mdis[:5]))
+        mode_stats = {"pairs": len(mkept), "outcomes": dict(mhist),
+                      "flag_mattered": len([1 for _, xs, xp in mkept if xs.split(" ")[1] != xp.split(" ")[1]])}
+        ctx.log("strict/permissive pairs: %d, %d disagree" % (len(mkept), len(mdis)))
+
     cov = ctx.coverage if cov_key is None else ctx.coverage.setdefault(cov_key, {})
     cov.update({
+        "strict_permissive_pairs": mode_stats,
         "evaluations": len(kept),
         "distinct_inputs": len(keys),
         "distinct_nontrivial": nontrivial,
@@ -322,6 +451,7 @@ def suite(ctx, translate=True, codes=None, cov_key=None, only=None, part=None):
         "iteration_orders": dict(collections.Counter(k[4].split(":")[0] for k, _ in kept)),
         "per_generator": {g_: dict(c) for g_, c in per_gen.items()},
         "stage_dumps_compared": n_full,
+        "skipped_too_many_type_variables_for_the_quick_tier": skipped_large,
         "display_trees": len(good),
         "traces_validated_against_impl": len(kept),
         "exhaustive": False,
